@@ -122,6 +122,7 @@ typedef struct khist_s {
   kack_t acks[KH_MAXACK];
   int nacks;
   int auto_drain;              /* drain background work after every op */
+  int markers;                 /* every write batch also puts a unique marker key m<opidx> */
   int last_status;
   int open_status;
   int iter_open_at_structural; /* an iterator was held when the last flush/compaction/reopen began */
@@ -135,12 +136,17 @@ void kh_clear(khist_t *h);
 int  kh_apply(khist_t *h, const kop_t *op);   /* returns lcdb status of the op (LDB_OK...) */
 void kh_model_apply(kmodel_t *m, const kop_t *op, int opidx);  /* model side only */
 int  kh_vid(int opidx, int j);   /* value id of update j of op opidx */
+void kv_marker_key(int opidx, char *buf);   /* 3 chars + NUL */
 
 /* oracles: return 1 if the property holds, else 0 with h->err filled */
 int ko_gets(khist_t *h, const kmodel_t *m, const ldb_snapshot_t *snap, int verify);
 int ko_scan(khist_t *h, const kmodel_t *m, const ldb_snapshot_t *snap, ldb_iter_t *use_iter, int verify);
 int ko_snapshots(khist_t *h);          /* every live snapshot: gets + scans */
 int ko_held_iters(khist_t *h);         /* every held iterator re-walked */
+
+/* "leveldb.sstables" -> file numbers + levels; directory == live files check (C13 b) */
+int kv_parse_sstables(ldb_t *db, uint64_t *nums, int *levels, int max);
+int kv_files_exact_check(ldb_t *db, const char *dbdir, char *err, size_t en);
 
 /* reference cursor for C07 */
 enum { CU_FIRST = 0, CU_LAST, CU_NEXT, CU_PREV, CU_SEEK, CU_GE, CU_GT, CU_LE, CU_LT, CU_NCALLS };
